@@ -10,9 +10,28 @@ namespace AlphaG.Crc
 /-- `(s >>> 1) ^^^ (if lsb s then POLY else 0)` on natural numbers. -/
 def zN (s : Nat) : Nat := (s >>> 1) ^^^ (if s % 2 = 1 then 0x82F63B78 else 0)
 
-/-- `walk s n = some t`: none of `s, zN s, …, zN^(n-1) s` equals 1, and `zN^n s = t`. -/
+/-- `walk s n = some t`: none of `zN s, …, zN^n s` is 0 or 1, and `zN^n s = t`.
+The state is forced to a literal at every step by the `match` (the kernel evaluates the
+discriminant), which keeps kernel evaluation linear in `n`. -/
 def walk : Nat → Nat → Option Nat
   | s, 0 => some s
-  | s, n + 1 => if s = 1 then none else walk (zN s) n
+  | s, n + 1 =>
+    match zN s with
+    | 0 => none
+    | 1 => none
+    | t + 2 => walk (t + 2) n
 
 end AlphaG.Crc
+
+/-
+Junction states of `CrcOrbitA … D` were produced by this script (they are only *checked*
+here; a wrong literal makes `decide +kernel` fail):
+
+    P = 0x82F63B78
+    z = lambda s: (s >> 1) ^ (P if s & 1 else 0)
+    s, js = 1, [1]
+    for k in range(1, 16 * 32800 + 1):
+        s = z(s); assert s not in (0, 1)
+        if k % 32800 == 0: js.append(s)
+    # orbit_seg<i> : walk js[i] 32800 = some js[i+1]
+-/
